@@ -166,6 +166,15 @@ SelectPicks(maxEntries, phases, slice, slices) ==
 SelectScen(pk) ==
   MkScen(<<MkRule(10, pk.p, <<RuleLink(<<pk.tg>>, << >>, pk.op, FALSE, << >>)>>)>>, pk.rq, "On")
 
+\* "select2": two targets over one collection followed by an exclusion written once, after both: it covers both
+Sel2Sels == {SelAll, SelKey(s_a), SelKey(s_b), SelRx([m |-> "prefix", lit |-> s_a])}
+Sel2Picks(maxEntries, phases, slice, slices) ==
+  [c : {"ARGS_GET", "REQUEST_HEADERS"}, s1 : Sel2Sels, s2 : Sel2Sels, ex : SliceOf({<<SelKey(s_b)>>, <<SelKey(s_a)>>, <<SelRx([m |-> "prefix", lit |-> s_a])>>}, slice, slices),
+   cnt1 : BOOLEAN, p : phases, rq : SeqsUpTo(SelEntries, maxEntries)]
+Sel2Scen(pk) ==
+  MkScen(<<MkRule(10, pk.p, <<RuleLink(<<Tgt(pk.c, pk.s1, pk.cnt1, pk.ex), Tgt(pk.c, pk.s2, FALSE, pk.ex)>>, << >>,
+                                      IF pk.cnt1 THEN OpLit("ge", s_0) ELSE Op("unconditionalMatch", << >>, FALSE), FALSE, << >>)>>)>>, pk.rq, "On")
+
 \* the last list returns to an earlier value on its way ("x" -> "X" -> "x") before a step that tells the values apart
 OpTfs == {<< >>, <<"lowercase">>, <<"trim", "lowercase">>, <<"removeWhitespace", "uppercase">>, <<"length">>, <<"uppercase", "lowercase", "hexEncode">>}
 s_78 == <<55, 56>>     \* hexEncode("x")
